@@ -36,7 +36,7 @@ PROPS = {
                  "Non-trivial = some [*] path evaluated to >=2 elements or some path has >=2 index steps (values: "
                  ">=2 steps or a present indexed value); distinct by hash of (canonical text, context)."),
         "quick": [st("rel")],
-        "thorough": [st("rel"), st("dbg"), st("asan"), st("miri", only="random", jobs=4, timeout=5400)],
+        "thorough": [st("rel"), st("dbg"), st("asan"), st("miri", only="random", jobs=1, shards=16, timeout=5400)],
         "floors": {"quick": {"evaluations": 60000, "distinct_nontrivial": 20000,
                              "evals_with_ragged_operands": 1000}},
         "on_death": "sanitizer",
@@ -52,7 +52,7 @@ PROPS = {
                  "(site, arguments, result) log written by the functions and the definition-context event log. "
                  "Non-trivial = at least one call was evaluated; distinct by hash of (canonical text, context)."),
         "quick": [st("rel")],
-        "thorough": [st("rel"), st("dbg"), st("asan"), st("miri", only="random", jobs=4, timeout=5400)],
+        "thorough": [st("rel"), st("dbg"), st("asan"), st("miri", only="random", jobs=1, shards=16, timeout=5400)],
         "floors": {"quick": {"evaluations": 30000, "distinct_nontrivial": 15000, "calls_observed": 30000,
                              "ctx_events": 10000}},
         "on_death": "sanitizer",
@@ -119,7 +119,7 @@ PROPS = {
                      st("asan", name="avx2", env={"WIREFILTER_USE_AVX2": "1"}, extra={"avx2": "1"}),
                      st("asan", name="scalar", env={"WIREFILTER_USE_AVX2": "0"}, extra={"avx2": "0"}),
                      st("dbg", name="avx2", env={"WIREFILTER_USE_AVX2": "1"}, extra={"avx2": "1"}),
-                     st("miri-avx2", name="avx2", env={"WIREFILTER_USE_AVX2": "1"}, extra={"avx2": "1"}, jobs=4, timeout=5400)],
+                     st("miri-avx2", name="avx2", env={"WIREFILTER_USE_AVX2": "1"}, extra={"avx2": "1"}, jobs=1, shards=16, timeout=5400)],
         "floors": {"quick": {"evaluations": 500000, "rel:avx2:searcher_avx2_array": 500,
                              "rel:avx2:searcher_avx2_boxed": 2000, "rel:scalar:searcher_memmem": 150,
                              "rel:avx2:searcher_memchr": 1, "rel:avx2:searcher_empty": 1}},
@@ -260,7 +260,7 @@ PROPS = {
                  "heterogeneous element lists; typed: the transmute-based TypedArray/TypedMap accessors. "
                  "distinct_nontrivial = distinct histories of length >=2."),
         "quick": [st("rel")],
-        "thorough": [st("rel"), st("dbg"), st("asan"), st("miri", only="typed", jobs=2, name="typed", timeout=5400), st("miri", only="constructors", jobs=2, name="constructors", timeout=5400)],
+        "thorough": [st("rel"), st("dbg"), st("asan"), st("miri", only="typed", jobs=1, shards=8, name="typed", timeout=5400), st("miri", only="constructors", jobs=1, shards=8, name="constructors", timeout=5400)],
         "floors": {"quick": {"evaluations": 150000, "distinct_nontrivial": 12000, "heterogeneous_inputs": 800}},
         "on_death": "sanitizer",
         "assumptions": COMMON_ASSUMPTIONS,
@@ -366,8 +366,8 @@ PROPS = {
                  "next call on the thread must work. distinct_nontrivial = distinct filter texts / sequences."),
         "quick": [st("rel")],
         "thorough": [st("rel"), st("dbg"), st("asan", env={"ASAN_OPTIONS": "halt_on_error=1:abort_on_error=1:detect_leaks=1"}),
-                     st("miri", only="panics", jobs=2, name="panics", timeout=5400), st("miri", only="setters", jobs=2, name="setters", timeout=5400),
-                     st("miri", only="differential", jobs=2, name="differential", timeout=5400)],
+                     st("miri", only="panics", jobs=1, shards=8, name="panics", timeout=5400), st("miri", only="setters", jobs=1, shards=8, name="setters", timeout=5400),
+                     st("miri", only="differential", jobs=1, shards=8, name="differential", timeout=5400)],
         "floors": {"quick": {"evaluations": 150000, "distinct_nontrivial": 3000, "matches_compared": 2500,
                              "parse_errors_compared": 500, "setter_failures": 8000, "setter_successes": 800,
                              "panics_reported_as_status": 150}},
